@@ -150,7 +150,11 @@ func c16Run1(c *Ctx, src, stdin string, cli bool) (*c16Record, bool) {
 			o.Panic = firstPanicLine(o.Stderr) + " ||"
 		}
 	} else {
-		o = RunLib(src, RunOpts{MaxSteps: 100000, Stdin: stdin, Repl: strings.Contains(src, "//repl-mode\n")})
+		budget := int64(100000)
+		if strings.Contains(src, "//long-run\n") {
+			budget = 40000000
+		}
+		o = RunLib(src, RunOpts{MaxSteps: budget, Stdin: stdin, Repl: strings.Contains(src, "//repl-mode\n")})
 	}
 	if CheckAbnormal(c, o) {
 		return nil, false
@@ -224,7 +228,7 @@ func c16Run(c *Ctx) {
 		prods     []c16Producer
 	}
 	var vals []val
-	for _, s := range []string{"abc", "", "5", "12.5", "\u09e6\u09ed", "1000000", "x5", "7", "\u0995\u09df\u09be", "e\u0301\u09dc", "\u0995\u09c7\u09be"} {
+	for _, s := range []string{"C:\\tmp\\", "\\", "a\\b", "abc", "", "5", "12.5", "\u09e6\u09ed", "1000000", "x5", "7", "\u0995\u09df\u09be", "e\u0301\u09dc", "\u0995\u09c7\u09be"} {
 		vals = append(vals, val{"string", `"` + s + `"`, c16StringProducers(s)})
 	}
 	for _, n := range []int{3, 0, -1, 7, 1000000, 1048576, 2, 1} {
@@ -253,6 +257,7 @@ func c16Run(c *Ctx) {
 		vals = append(vals, val{"string", `"` + s + `"`, ps})
 	}
 	vals = append(vals, val{"number", "1.5", c16FractionProducers("1.5", "0.75")}, val{"number", "0.5", c16FractionProducers("0.5", "0.25")}, val{"number", "2.25", c16FractionProducers("2.25", "1.125")})
+	c16LongRun(c, pre)
 	k := 0
 	for ci, ctx := range ctxs {
 		for _, v := range vals {
@@ -279,6 +284,42 @@ func c16Run(c *Ctx) {
 				cc := *cs
 				cc.Gen, cc.Mode = "context-x-producers-cli", "cli"
 				c16Judge(c, &cc)
+			}
+		}
+	}
+}
+
+// c16LongRun: the hole evaluated 110 000 times in one run (only producers that can be re-evaluated)
+func c16LongRun(c *Ctx, pre string) {
+	ctxs := []string{
+		"//long-run\n" + Var("t", "0") + " " + For(Var("i", "0"), "i < 110000", "i = i + 1", "{ "+If("%v == %L", "{ t = t + 1; }")+" }") + " " + Print("t") + " " + Print("%v"),
+		"//long-run\n" + Var("t", "0") + " " + Var("i", "0") + " " + While("i < 110000", "{ i = i + 1; "+Var("w", "%v")+" "+If("!(w == %L)", "{ t = t + 1; }")+" }") + " " + Print("t") + " " + Print("[%v]"),
+	}
+	for _, v := range []struct {
+		kind, lit string
+		prods     []c16Producer
+	}{{"number", "3", c16NumberProducers(3)}, {"string", `"abc"`, c16StringProducers("abc")}} {
+		for ci, ctx := range ctxs {
+			var names, stdins []string
+			cs := &Case{Gen: "many-evaluations", X: map[string]string{"kind": v.kind, "context": fmt.Sprintf("long-run #%d", ci)}}
+			for _, p := range v.prods {
+				if p.name == "input" || strings.HasPrefix(p.name, "coerced-") {
+					continue
+				}
+				body := strings.ReplaceAll(strings.ReplaceAll(ctx, "%v", p.expr), "%L", v.lit)
+				src := pre + p.pre + Print(`"start"`) + "\n" + body + "\n" + Print(`"end"`) + "\n"
+				if len(names) == 0 {
+					cs.Src = src
+				} else {
+					cs.Alt = append(cs.Alt, src)
+				}
+				names = append(names, p.name)
+				stdins = append(stdins, "")
+			}
+			cs.X["stdins"] = strings.Join(stdins, "\x1f")
+			cs.X["producers"] = strings.Join(names, ",")
+			if c.Mine() {
+				c16Judge(c, cs)
 			}
 		}
 	}
